@@ -116,6 +116,10 @@ pub struct EpMon {
     pub hpack_dead: bool,
     pub settings_out: u64,
     pub app_resets: BTreeMap<u32, u64>,
+    /// simulated time at which E reset each stream (application call or first RST_STREAM
+    /// seen by the monitor, whichever came first)
+    pub reset_time: BTreeMap<u32, u64>,
+    pub goaway_time: Option<u64>,
 }
 
 impl EpMon {
@@ -156,6 +160,8 @@ impl EpMon {
             hpack_dead: false,
             settings_out: 0,
             app_resets: BTreeMap::new(),
+            reset_time: BTreeMap::new(),
+            goaway_time: None,
         }
     }
 
@@ -182,6 +188,7 @@ pub struct Monitor {
     pub ev_step: u64,
     /// diagnostic call-site markers reported by the endpoints (hook H3)
     pub notes: [std::collections::BTreeSet<(&'static str, u32)>; 2],
+    pub now_ns: u64,
 }
 
 fn name(side: usize) -> &'static str {
@@ -205,6 +212,7 @@ impl Monitor {
             parse_garbage: [false, false],
             ev_step: 0,
             notes: Default::default(),
+            now_ns: 0,
         }
     }
 
@@ -233,6 +241,8 @@ impl Monitor {
     /// The application of `side` reset the stream or dropped its last handle at `step`.
     pub fn note_app_reset(&mut self, side: usize, sid: u32, step: u64) {
         self.ep[side].app_resets.entry(sid).or_insert(step);
+        let now = self.now_ns;
+        self.ep[side].reset_time.entry(sid).or_insert(now);
     }
 
     /// Process as many endpoint events as the taps allow.
@@ -361,6 +371,11 @@ impl Monitor {
                 self.after_in_close(side, f.sid);
             }
             HEADERS | PUSH_PROMISE => {
+                // a stream stops being idle when its first HEADERS frame arrives, even if the
+                // header block is still incomplete
+                if f.ty == HEADERS && f.sid % 2 != e.local_parity() && f.sid > e.max_peer_id {
+                    e.max_peer_id = f.sid;
+                }
                 if f.end_headers() {
                     self.in_headers_done(side, f);
                 } else {
@@ -570,12 +585,16 @@ impl Monitor {
 
     fn out_goaway(&mut self, side: usize, f: &RawFrame) {
         let who = name(side);
+        let now = self.now_ns;
         if let (Some(l), Some(c)) = (f.u32_at(0), f.u32_at(4)) {
             let l = l & 0x7fff_ffff;
             let e = &mut self.ep[side];
             let prev = e.goaway_out.last().map(|x| x.0);
             let in_idx = e.in_idx;
             e.goaway_out.push((l, c, in_idx));
+            if c != 0 && e.goaway_time.is_none() {
+                e.goaway_time = Some(now);
+            }
             if let Some(p) = prev {
                 if l > p {
                     self.viol("C15", "goaway-last-id-increased", "", format!("{} emitted GOAWAY(last={}) after GOAWAY(last={})", who, l, p));
@@ -733,8 +752,11 @@ impl Monitor {
                     );
                 }
             }
-            if !self.ep[side].goaway_in.is_empty() {
-                self.viol("C15", "new-stream-after-goaway-received", "", format!("{} opened stream {} after processing a GOAWAY", who, sid));
+            // requests submitted before the GOAWAY was processed and numbered at or below its
+            // last-stream-id may still be opened ("run to completion"); anything above may not
+            if let Some(g) = self.ep[side].goaway_in.iter().find(|g| g.0 < sid) {
+                let l = g.0;
+                self.viol("C15", "new-stream-after-goaway-received", "", format!("{} opened stream {} after processing a GOAWAY with last-stream-id {}", who, sid, l));
             }
         }
         let e = &mut self.ep[side];
@@ -840,7 +862,10 @@ impl Monitor {
         }
         e.streams.insert(pid, s);
         if !e.goaway_in.is_empty() {
-            viols.push(("new-stream-after-goaway-received", format!("server promised stream {} after processing a GOAWAY", pid)));
+            // a client's GOAWAY last-stream-id counts server-initiated (pushed) streams
+            if e.goaway_in.iter().any(|g| g.0 < pid) {
+                viols.push(("new-stream-after-goaway-received", format!("server promised stream {} after processing a GOAWAY that excludes it", pid)));
+            }
         }
         for (o, m) in viols {
             self.viol("C04", o, "PUSH_PROMISE", m);
@@ -921,11 +946,20 @@ impl Monitor {
             return;
         }
         if self.is_idle(side, sid) {
-            self.viol("C04", "frame-on-idle-stream", "RST_STREAM", format!("{} emitted RST_STREAM on idle stream {}", who, sid));
+            // history discriminator: had E already processed a GOAWAY that excludes this stream?
+            let after_goaway = self.ep[side].goaway_in.iter().any(|g| g.0 < sid);
+            self.viol(
+                "C04",
+                "frame-on-idle-stream",
+                if after_goaway { "RST_STREAM:stream-excluded-by-received-goaway" } else { "RST_STREAM" },
+                format!("{} emitted RST_STREAM on idle stream {}{}", who, sid, if after_goaway { " (its queued HEADERS were discarded when a GOAWAY with a lower last-stream-id arrived)" } else { "" }),
+            );
             return;
         }
         let code = f.u32_at(0).unwrap();
+        let now = self.now_ns;
         let e = &mut self.ep[side];
+        e.reset_time.entry(sid).or_insert(now);
         let s = e.streams.entry(sid).or_default();
         s.rst_out += 1;
         if s.rst_out_code.is_none() {
@@ -975,5 +1009,26 @@ impl Monitor {
                 }
             }
         }
+    }
+}
+
+impl EpMon {
+    /// Could E legitimately have forgotten that it reset `sid` by the time `at_ns`?
+    /// (h2 remembers at most `quota` locally reset streams, each for `duration_ns`.)
+    /// Over-approximates forgetting, so that a frame on a possibly-forgotten stream is never
+    /// judged.
+    pub fn may_have_forgotten(&self, sid: u32, at_ns: u64, quota: usize, duration_ns: u64) -> bool {
+        let t = match self.reset_time.get(&sid) {
+            Some(t) => *t,
+            None => return false,
+        };
+        if quota == 0 || duration_ns == 0 {
+            return true;
+        }
+        if at_ns.saturating_sub(t) >= duration_ns {
+            return true;
+        }
+        let earlier = self.reset_time.iter().filter(|(id, tt)| **id != sid && **tt <= t).count();
+        earlier >= quota
     }
 }
